@@ -15,8 +15,12 @@ CONSTANTS NVec, NSec, MaxSecs
 SKinds  == {"audio", "video", "application", "text", "message"}
 SMids   == {"0", "1", "2", "5", "a", "audio0"}
 SDirs   == {"sendrecv", "sendonly", "recvonly", "inactive", "absent"}
-SCodecs == {"supported", "unsupported", "mixed", "subset"}
-Pre     == {"none", "audio-sendrecv-track", "video-recvonly", "audio+video-tracks", "two-video"}
+\* "renumbered*": the peer's payload-type numbering collides with the local one (its 98/99 are VP8 and
+\* the RTX of that VP8, locally they are VP9 and VP9's RTX)
+SCodecs == {"supported", "unsupported", "mixed", "subset", "renumbered", "renumbered2"}
+\* "video-prefs-*": a video transceiver with SetCodecPreferences (primary + RTX pairs, local numbering)
+Pre     == {"none", "audio-sendrecv-track", "video-recvonly", "audio+video-tracks", "two-video",
+            "video-prefs-vp9rtx", "video-prefs-vp8rtx-h264", "video-prefs-rtxfirst"}
 Post    == {"none", "dc+offer", "reoffer-sendonly", "reoffer-recvonly", "reoffer-inactive", "track+offer"}
 Place   == {"media", "session"}
 
